@@ -217,6 +217,35 @@ def t1_hr(sx, size):
     return exercise(sx, w, "tt1:header-rom", max_cmds=200)
 
 
+def t1_hr_long(sx, size, oldlen):
+    """a message that runs across the reserved blocks 0Dh-0Fh (bytes 104..127)
+    of a tag with more than 120 bytes whose header ROM says anything (HR0
+    11h = static memory structure included, as long as the tag answers the
+    dynamic memory commands): what the reader returns, if anything, are the
+    octets of the data area - not lock or reserved bytes"""
+    w = worlds.T1World(sx, (0x12, 0x4C), size, "", [], oldlen, symbolic_window=(0, 0), terminator=1)
+    w.sim.hr = [sx.pick("hr0", [0x11, 0x12, 0x1F, 0x10, 0x21]), sx.byte("hr1")]
+    w.sim.dynamic = True
+    kind = "tt1:header-rom:long-message"
+    w.sim.max_cmds = 400
+    try:
+        tag = w.fresh_tag()
+        ndef = tag.ndef if tag is not None else None
+    except tags.TooManyCommands:
+        sx.check(False, "unbounded-number-of-commands:" + kind)
+    if ndef is None:
+        sx.reach("t1_long_none")
+        return "none"
+    sx.reach("t1_long_object")
+    octets = ndef.octets
+    sx.check(len(octets) == ndef.length and ndef.length <= ndef.capacity,
+             "length-exceeds-capacity:" + kind)
+    if len(octets) != len(w.old):
+        sx.check(False, "octets-outside-data-area:" + kind)
+    sx.check(sx.eq(octets, w.old), "octets-are-not-what-the-data-area-holds:" + kind)
+    return "ndef"
+
+
 def t1_ctl(sx, hr, size, which):
     w = worlds.T1World(sx, tuple(hr), size, "", [], 0, symbolic_window=(0, 0), terminator=1)
     m = w.sim.mem
@@ -580,6 +609,8 @@ def partitions(tier):
         add("t1:gone:%02x%02x" % (hr[0], hr[1]), "t1_gone", hr=hr, size=size, n=30)
     add("t1:hr:120", "t1_hr", size=120)
     add("t1:hr:512", "t1_hr", size=512)
+    for size, oldlen in ((256, 100), (512, 100)):
+        add("t1:hr-long:%d" % size, "t1_hr_long", size=size, oldlen=oldlen)
     for cs in (True, False):
         for nb in ((6, 20) if tier != "quick" else (6,)):
             for ws in (True, False):
@@ -610,7 +641,7 @@ def partitions(tier):
     return P
 
 
-MUST_REACH = ["v3_32k_object", "v3_32k_none", "activate_none", "ndef_none", "ndef_object"]
+MUST_REACH = ["t1_long_object", "v3_32k_object", "v3_32k_none", "activate_none", "ndef_none", "ndef_object"]
 BOUNDS = {"quick": "mutations of valid layouts with symbolic mutated fields (see module docstring): TLV length fields, CC bytes, control TLVs, Type 3 attribute block (symbolic fields, boundary sets for Nbr/Ln, Nbr up to 255 with Ln up to 4080), PMm, polling answers of every length with/without system code in SENSF_RES, arbitrary first read answers, Type 4 CC file fields, NLEN/ENLEN around the end of the file for both mapping versions (guard bytes behind the file), MLe up to FFFFh with a 400-byte file, short and over-long READ BINARY answers, mapping version 3 with NLEN above 65535, mapping version 3 with a 36 KiB file of position-dependent contents and messages ending around offset 8000h (octets compared with the file; the card reads P1 bit 8 as short file identifier per ISO/IEC 7816-4), ATS of 1..7 symbolic bytes, SENSB_RES protocol info; a fully symbolic Type 2 image of 3 data bytes; GET_VERSION variants; silence from every command index",
           "thorough": "fully symbolic T2 images of 3 data bytes under three CC sizes; ATS up to 9 bytes; two arbitrary ISO-DEP blocks"}
 OUTSIDE = ["fully symbolic images larger than stated", "more than one mutated structure per image", "NXP GET_VERSION/signature answer variants (concrete in C20's model)"]
